@@ -3,6 +3,7 @@ package main
 import (
 	"fmt"
 	"github.com/paulmach/osm"
+	"strconv"
 
 	"verif/kit"
 )
@@ -243,6 +244,13 @@ func runParse(r *kit.Run, thorough bool) {
 		"-x", "--", "- ", "1-", "\t1", "1\t", "1\n", "1\r\n", "1\x00", "\uff11", "1\u00a0",
 		"0000000000000000000000001", "00000000000000000000065535", "123456789012345678901234567890",
 		"1.0", "1.", "1,0", "0b1", "0o7", "١٢"}
+	// numbers beyond the 40 ref bits whose upper bits spell one of the kind masks of a packed
+	// id (a parser that packs first and asks for the kind afterwards reads the kind off them)
+	for _, sh := range []uint{40, 44, 48} {
+		for k := int64(1); k <= 15; k++ {
+			numerals = append(numerals, strconv.FormatInt(k<<sh|5, 10))
+		}
+	}
 	kinds := append(append([]string{}, allKinds...), "nod", "nodes", "Node", "NODE", " node", "node ", "", "unknown", "element", "feature", "object",
 		"nod\u00e9", "\uff4eode", "node\x00", "\tnode", "node\n", "n", "w", "r", "nodeway", "node,way", "*", "%s", "osm.node", "way\u200b")
 	var structured []string
